@@ -13,7 +13,7 @@ def constant_speed_cases(tier):
     """(label, builder(start, direction) -> (shape, args, exp), true path length, radius)"""
     thorough = tier == "thorough"
     out = []
-    radii = [1.0, 10.0, 100.0]
+    radii = [1.0, 10.0, 100.0, 1000.0]
     sweeps = [30, 90, 180, 360] + ([3, 270] if thorough else [])
     for R in radii:
         for sw in sweeps:
@@ -127,7 +127,7 @@ def run(tier, seed):
     res = Result("exploration")
     cases = constant_speed_cases(tier)
     items = []
-    res_list = [1.0, 0.1] + ([0.01] if tier == "thorough" else [])
+    res_list = [1.0, 0.1, 20.0, 40.0] + ([0.01, 12.5] if tier == "thorough" else [])      # resolutions above 10 units: large-format work
     for idx, (label, b, L, R) in enumerate(cases):
         for r in res_list:
             ratio = L / r
@@ -138,6 +138,8 @@ def run(tier, seed):
                 items.append(("speed", idx, r, "counter" if idx % 2 else "clockwise", "relative", "in", tier))
         if L <= 700:
             items.append(("mono-speed", idx, 1.0 if R >= 1 else 0.5, "clockwise", "absolute", None, tier))
+        elif R >= 1000 and L <= 7000:
+            items.append(("mono-speed", idx, 40.0, "clockwise", "absolute", None, tier))
     for idx, (label, b, L, R) in enumerate(cases):
         if label.startswith("circle"):
             items.append(("live-change", idx, min(R, 2.0), "clockwise", "absolute", None, tier))
